@@ -87,6 +87,8 @@ type Translator struct {
 	paramHolders   []paramHolder
 	pendingEpochAlloc int
 	callArgs       []string
+	callLocalArgs  map[string]bool // protected locals passed by value to the call being translated
+	callArgTypes   map[string]types.Type // static pointee / element type of a passed pointer term (absent = unknown)
 	reachConsts    map[string]bool
 	autoRecvNonNil bool
 	safeOnly       bool
@@ -764,6 +766,8 @@ func (fc *fctx) enterBlock(b *ssa.BasicBlock) bool {
 	preState := tr.cur.clone()
 	if all {
 		tr.callArgs = nil
+		tr.callLocalArgs = nil
+		tr.callArgTypes = nil
 		tr.havocAll()
 	} else {
 		for _, c := range mods {
@@ -793,9 +797,32 @@ func (fc *fctx) enterBlock(b *ssa.BasicBlock) bool {
 
 func (tr *Translator) havocAll() {
 	var prot []string
-	var protPtr []string
 	for _, a := range tr.protected {
 		prot = append(prot, eq("(obase a)", a))
+	}
+	// what the callee was handed: top-level pointers, slices and interface payloads, with their static pointee type where
+	// the call site shows it.  A passed pointer can only designate (a part of) a holder whose type matches.
+	passed := tr.callArgs
+	notPassed := func(base string, t types.Type) string {
+		var cs []string
+		for _, p := range passed {
+			pt, known := tr.callArgTypes[p]
+			if known && t != nil && pt != nil && !types.Identical(pt, t) {
+				continue
+			}
+			if known && t == nil && pt != nil {
+				// the holder is the model struct an interface parameter designates: it is neither a struct of the loader
+				// machinery nor the backing array of a slice of basic values
+				if _, isStruct := structOf(pt); isStruct != "" && machineryPartition("X$"+structName(pt)+"_") {
+					continue
+				}
+				if _, isBasic := pt.Underlying().(*types.Basic); isBasic {
+					continue
+				}
+			}
+			cs = append(cs, not(eq(base, "(obase "+p+")")))
+		}
+		return and(cs...)
 	}
 	// pointer parameters of the function under verification: the objects they designate behave like holders
 	// (TREE): a callee that is not handed the pointer itself does not change their pointer / slice / map cells
@@ -805,23 +832,24 @@ func (tr *Translator) havocAll() {
 	}
 	var paramHolders []holder
 	for _, ph := range tr.paramHolders {
-		passed := false
-		for _, a := range tr.callArgs {
+		isPassed := false
+		for _, a := range passed {
 			if a == ph.addr {
-				passed = true
+				isPassed = true
 			}
 		}
-		if !passed {
+		if !isPassed {
 			if ph.t != nil {
 				paramHolders = append(paramHolders, holder{ph.addr, ph.t})
 			}
 			// the object itself keeps all its cells: the callee was not handed a pointer to it, and model values are
 			// trees (nothing the callee can reach points back into it)
-			prot = append(prot, and(not(eq(ph.addr, "0")), eq("(obase a)", "(obase "+ph.addr+")")))
+			prot = append(prot, and(not(eq(ph.addr, "0")), eq("(obase a)", "(obase "+ph.addr+")"), notPassed("(obase "+ph.addr+")", ph.t)))
 		}
 	}
-	// TREE assumption: the holder objects a local value points to (SchemaOrBool, SchemaOrArray, ...) keep their
-	// pointer fields across a call that received only sub-values of the local (Go values of the model are trees)
+	// TREE assumption: the holder objects a local value points to (SchemaOrBool, SchemaOrArray, the backing arrays of
+	// its slices) keep their cells across a call that was not handed a pointer to them (Go values of the model are
+	// trees: the callee received copies of sub-values, from which the holder itself cannot be reached)
 	var protMaps []string
 	var holders []holder
 	for _, a := range tr.protected {
@@ -835,13 +863,25 @@ func (tr *Translator) havocAll() {
 		if os.Getenv("GOVC_NOTREE") != "" {
 			continue
 		}
+		if tr.callLocalArgs[a] {
+			continue // the local itself was passed by value: the callee can reach its holders
+		}
 		for _, l := range tr.u.leaves(t) {
+			if kindOfComp(l.comp) == "MSlice" {
+				if _, ok := l.T.Underlying().(*types.Slice); ok {
+					sv := mkVal("(select "+tr.cur.get(tr.u, l.comp)+" "+tr.u.leafAddr(a, t, l.path)+")", "Slice", l.T)
+					arr := tr.define("ha", "Int", slPart(sv, 0))
+					hb := tr.define("hab", "Int", "(obase "+arr+")")
+					prot = append(prot, and(not(eq(arr, "0")), eq("(obase a)", hb), notPassed(hb, l.T.Underlying().(*types.Slice).Elem())))
+				}
+				continue
+			}
 			if kindOfComp(l.comp) != "MPtr" {
 				continue
 			}
 			if _, ok := l.T.Underlying().(*types.Map); ok {
 				m := tr.define("hm", "Int", "(select "+tr.cur.get(tr.u, l.comp)+" "+tr.u.leafAddr(a, t, l.path)+")")
-				protMaps = append(protMaps, and(not(eq(m, "0")), eq("a", m)))
+				protMaps = append(protMaps, and(not(eq(m, "0")), eq("a", m), notPassed(m, l.T)))
 				continue
 			}
 			if _, ok := l.T.Underlying().(*types.Pointer); !ok {
@@ -850,14 +890,11 @@ func (tr *Translator) havocAll() {
 			// named as ground constants so that instantiating the quantified protection facts creates no new terms
 			p := tr.define("hp", "Int", "(select "+tr.cur.get(tr.u, l.comp)+" "+tr.u.leafAddr(a, t, l.path)+")")
 			hb := tr.define("hpb", "Int", "(obase "+p+")")
-			protPtr = append(protPtr, and(not(eq(p, "0")), eq("(obase a)", hb)))
+			prot = append(prot, and(not(eq(p, "0")), eq("(obase a)", hb), notPassed(hb, l.T.Underlying().(*types.Pointer).Elem())))
 		}
 	}
-	if len(tr.paramHolders) > 0 {
-		tr.trusted["TREE: an object designated by a pointer (or pointer-holding interface) parameter of the function under verification is not written by a callee that was not handed that pointer"] = true
-	}
-	if len(protPtr) > 0 {
-		tr.trusted["TREE: pointer fields of holder objects referenced by a local value are not changed by callees that received only sub-values (model values are trees)"] = true
+	if len(holders) > 0 || len(tr.paramHolders) > 0 {
+		tr.trusted["TREE: an object designated by a pointer (or pointer-holding interface) parameter of the function under verification, and the holder objects (pointees, slice backing arrays, maps) referenced directly by a local value, are not written by a callee that was not handed a pointer to them (model values are trees)"] = true
 	}
 	// components touched on this path get fresh constants (related to their old value on protected locals);
 	// all others are simply named by the new epoch when they are next used
@@ -865,7 +902,7 @@ func (tr *Translator) havocAll() {
 	for _, k := range tr.cur.keys() {
 		touchedSet[k] = true
 	}
-	if len(prot) > 0 || len(protPtr) > 0 {
+	if len(prot) > 0 {
 		// partitions that were only read so far may hold cells of protected locals / holders too
 		for c := range tr.u.accessed {
 			if strings.Contains(c, "$") {
@@ -906,13 +943,9 @@ func (tr *Translator) havocAll() {
 		}
 		old := oldNames[c]
 		n := tr.havocComp(c)
-		k := kindOfComp(c)
 		// local variables whose address never leaves the function keep their contents across any call
-		if (len(prot) > 0 || len(protPtr) > 0) && strings.Contains(c, "$") {
+		if len(prot) > 0 && strings.Contains(c, "$") {
 			cond := or(prot...)
-			if (k == "MPtr" || k == "MSlice") && len(protPtr) > 0 {
-				cond = or(append([]string{cond}, protPtr...)...)
-			}
 			tr.factFor(n, fmt.Sprintf("(forall ((a Int)) (! (=> %s (= (select %s a) (select %s a))) :pattern ((select %s a))))", cond, n, old, n))
 		}
 		// TREE: maps held directly by a local value keep their contents
